@@ -89,6 +89,9 @@ HOSTILE_COMPONENTS = [
     "plain", "with space", "it's", 'dq"uote', "back\\slash", "$HOME", "$(id)", "star*", "q?mark", "[abc]", "new\nline", "tab\tname",
     "-dash", "--delete", "..x", "x..", "...", "日本語", "é", "a;b", "a&b", "`tick`", "percent%41", "semi;colon", "~tilde", "#hash", "pipe|x", "{brace}",
     "trailingdot.", ".hidden", "UPPER", "a" * 200,
+    # names close to NAME_MAX made of 2-, 3- and 4-byte characters at different alignments: every suffix the
+    # tool appends (`.copia-tmp`, conflict names) lands in or near a multi-byte character
+    "日" * 80, "p" + "日" * 81, "é" * 120 + "x", "\U0001F600" * 61, "pq" + "日" * 70,
     # backslash sequences that mean something inside $'...' if an escaping step is forgotten
     "bs\\nx", "bs\\tx", "trail\\", "q\\'x", "oct\\101", "bs\\\\2",
 ]
